@@ -51,9 +51,8 @@ Qed.
 
 Lemma handler_ok_call : forall c, registered_call c = true -> handler_ok c = true -> call_ok_b c = true.
 Proof.
-  intros c Hr H. unfold handler_ok in H. bsplit. unfold call_ok_b.
-  rewrite Hr. cbn. match goal with H : k_ok c = true |- _ => rewrite H end. cbn.
-  match goal with H : Nat.eqb _ _ = true |- _ => rewrite H end. reflexivity.
+  intros c Hr H. unfold handler_ok in H. apply andb_true_iff in H. destruct H as [Ha Hk]. unfold call_ok_b.
+  rewrite Hr, Hk, Ha. reflexivity.
 Qed.
 
 Lemma create_v2_registered : registered_call (mkcall 0 create_v2_method 0 false) = true.
@@ -109,7 +108,7 @@ Proof.
   intros c H. unfold call_ok_b in H. bsplit. split; [assumption|].
   split; [assumption|].
   match goal with H : (_ || _) = true |- _ => apply orb_true_iff in H; destruct H as [H|H] end.
-  - left. apply Nat.eqb_eq. assumption.
+  - left. assumption.
   - right. bsplit. split; [apply String.eqb_eq; assumption|apply Nat.eqb_eq; assumption].
 Qed.
 
